@@ -17,6 +17,8 @@ import popgen
 import py2coq
 import obj2coq
 import specgen_metrics
+import specgen_indexmath
+import specgen_hw
 
 LEVEL = "translation_validation"
 IMPORTS = ["TV.Model.Show", "TV.Model.Py", "TV.Model.HAst"]
@@ -39,6 +41,34 @@ def case_expr(tree_stmt, text):
     h = obj2coq.Dumper(tr).stmt(tree_stmt)
     fid = tr.ident("float")
     return '(c09_check %s %s %s ++ "," ++ show_bool (c09_exact %s %s %s))' % (fid, h, prog, fid, h, prog)
+
+
+def nestings(node, acc, parent=None, seen=None):
+    """Coverage measure: how binary operations are nested in the trees of the population - 'child-op under parent-op, side,
+    parenthesized?' (the precedence-relevant shapes the printer is exercised on)."""
+    from teaal.hifiber import EBinOp, EParens
+    seen = set() if seen is None else seen
+    if id(node) in seen or isinstance(node, (str, int, float, bool, type(None))):
+        return
+    seen.add(id(node))
+    if isinstance(node, EBinOp):
+        for side, ch in (("L", node.expr1), ("R", node.expr2)):
+            par = False
+            while isinstance(ch, EParens):
+                par, ch = True, ch.expr
+            if isinstance(ch, EBinOp):
+                k = "%s under %s %s%s" % (ch.op.gen(), node.op.gen(), side, " parens" if par else "")
+                acc[k] = acc.get(k, 0) + 1
+    if isinstance(node, (list, tuple)):
+        for x in node:
+            nestings(x, acc, node, seen)
+    elif isinstance(node, dict):
+        for k, v in node.items():
+            nestings(k, acc, node, seen)
+            nestings(v, acc, node, seen)
+    elif hasattr(node, "__dict__"):
+        for v in vars(node).values():
+            nestings(v, acc, node, seen)
 
 
 def coord_builder_cases(ctx, n):
@@ -84,8 +114,13 @@ def run(ctx):
     for _ in range(40 if q else 300):
         y, meta = specgen_metrics.gen(rng)
         items.append({"yaml": y, "kind": "generated-metrics", "arch": True})
+    # index math with the partitioning declared on any rank of the relation (fractional / negative / integer scaling of
+    # compound n-way steps and of atomic steps; followers of a strided rank), and metrics-mode cascades with sequencers,
+    # mergers, buffets and intersectors shared by several Einsums (time / traffic formulas of the collector)
+    items += [specgen_indexmath.gen(rng) for _ in range(300 if q else 2500)]
+    items += [specgen_hw.gen_cascade(rng) for _ in range(60 if q else 500)]
     exprs, meta = [], []
-    stats = {"trees": 0, "rejected": 0, "by_kind": {}, "untranslatable": {}}
+    stats = {"trees": 0, "rejected": 0, "by_kind": {}, "untranslatable": {}, "binop_nestings": {}}
     bad = 0
     for it in items:
         try:
@@ -93,6 +128,7 @@ def run(ctx):
         except Exception:
             stats["rejected"] += 1
             continue
+        nestings(tree, stats["binop_nestings"])
         try:
             exprs.append(case_expr(tree, text))
         except (py2coq.Unsupported, obj2coq.Unsupported, SyntaxError) as e:
@@ -142,7 +178,9 @@ def run(ctx):
     ctx.coverage.update({
         "programs": len(meta), "disagreements_checked": bad, "evaluations": len(meta), "distinct_nontrivial": len(set(t for _, t in meta)),
         "population": stats, "equal_without_reassociation": exact,
-        "rule": "statement trees of the C01-C05 populations, the same with spacetime, accelerator and generated metrics specifications; plus expressions built by "
+        "rule": "statement trees of the C01-C05 populations, the same with spacetime, accelerator and generated metrics specifications (incl. multi-Einsum cascades sharing "
+                "sequencers/mergers/buffets/intersectors); index-math Einsums (1-3 variables, coefficients 1-4 and negative, varied rank names) partitioned on ANY rank of the "
+                "relation (n-way / uniform shape stacks, literal or symbolic) with the other ranks following; plus expressions built by "
                 "CoordAccess.build_expr from generated affine sympy expressions (1-3 symbols, rational coefficients with denominators 1-4, optional constant)",
         "samples": [{"kind": meta[0][0]["kind"], "text": meta[0][1][:400], "verdict": res[0]}, {"kind": "coord-builder", "sympy": meta[-1][0]["yaml"], "text": meta[-1][1], "verdict": res[-1]}],
         "trusted_base": ["Coq 8.16.1 kernel + VM", "CPython ast.parse (the definition of what the text denotes)", "tools/py2coq.py and tools/obj2coq.py (fail-closed; an error in one shows up as a disagreement)",
